@@ -94,7 +94,7 @@ except ImportError:  # run as a script (child interpreters of the ambient probe)
     from common import impl_error
 
 PROP = "C03"
-MODULES = ["C03", "C03a", "C03b", "C03c", "C03d"]
+MODULES = ["C03", "C03a", "C03b", "C03c", "C03d", "C03e"]
 GEN = ["Elements"]
 MATCHERS = {}
 
